@@ -10,7 +10,10 @@
   Shannon expansion by name (`C08_shannon`); `len(f)` / `dag_size` is the number of reachable
   nodes (`C08_len_value`); `succ` (`C08_succ_value`).
   Every theorem holds in BOTH modes (`off = true`: reordering not enabled; `off = false`: it
-  may be enabled and may fire inside the call, C09).
+  may be enabled and may fire inside the call, C09).  Where a decorated operation is involved the
+  mode `off = false` carries `Two off a` = at least two declared variables (`DD.Two`: with fewer a
+  request that fires ends in the `ValueError` of sifting — an outcome of `C08_ops_dyn_total`, not a
+  value).
 -/
 import DDProps.C08
 import DDProofs.AutoValues
